@@ -34,7 +34,13 @@ from flax import nnx
 
 from harness.props import c03 as g3  # graph JSON format, real classes, static value codec (imported, not modified)
 
-NODE_CLASSES = g3.NODE_CLASSES
+NODE_CLASSES = dict(g3.NODE_CLASSES)
+# graph nodes whose truth value is not "always true": re-use of the caller's object in the outer merge must be decided by
+# presence in outer_index_outer_ref, never by the object's value
+NODE_CLASSES['L'] = type('L', (nnx.Module,), {'__len__': lambda self: len(vars(self)) - 1})  # empty => falsy
+NODE_CLASSES['F'] = type('F', (nnx.Module,), {'__bool__': lambda self: False})  # always falsy
+NODE_CLASSES['Rngs'] = nnx.Rngs  # the library's own container: `nnx.Rngs()` is empty, its __len__ is 0
+FALSY_CLASSES = ['L', 'F', 'Rngs']
 VTYPES = g3.VTYPES
 VT_MRO = g3.VT_MRO
 static_value = g3.static_value
@@ -69,10 +75,10 @@ SPEC = {
     'cached_partial runs the function on clones of the cached graph nodes that share the caller\'s Variables: returned graph nodes are clones (only value updates and array results are compared)',
   ],
   'model_partial': [
-    'cond_switch_refine / cond_refine / loops_refine_unrolled / while_refines_unrolled are stated for calls the transform ACCEPTS (both the call under the transform and the eager run succeed); the unconditional "fails exactly when the body fails" form (no failure mode of its own on closed heaps) is proved for jit and remat only (jit_total, remat_total). NOT proved in Lean: that cond / switch / loops reject ONLY structure changes; tied by correspondence (rejections are compared with the model, and an accepted call with the eager run).',
-    'loops_refine_unrolled / while_refines_unrolled assume distinct attribute keys (AttrsNodup: a fact about Python dicts) and, for while_loop, a predicate built from reads only.',
+    'switch_total / cond_total / fori_loop_total / while_loop_total give the unconditional forms (closed heap; Heap.wf for loops): first eagerly failing branch => its error; all branches ok and equal traced output structures => accepted and refines; otherwise structureMismatch (exhaustive trichotomy); a loop body is accepted iff the eager body returns the carry with the same graphdef and the same objects in the same order (loop_body_outcome). NOT proved in Lean: for loops, which error is returned when a LATER iteration (not the traced first application) fails or stops keeping the carry -- programs have no data-dependent structure, so in the implementation this cannot happen after a successful trace; the model re-checks every iteration and the correspondence compares outcomes.',
+    'while_loop theorems assume a predicate built from reads only (Fn.readOnly) that returns one array, and termination within the budget.',
     'cached_partial_detects: the model keeps the observable contract of nnx.cached_partial (run jit(f), demand final graphdef == graphdef.with_same_outer_index() for the cached arguments, propagate Variable updates). NOT modelled: the StaticCache fast paths themselves (cached graphdef / Variable list / fingerprint indices) and that the function runs on CLONES of the cached graph nodes (a returned graph node is a clone, not the caller\'s object); tied by correspondence on value-only bodies returning arrays.',
-    'refinement theorems compare everything reachable from (arguments, results) AFTER the call; the state of a caller object that the function detached from the arguments is outside the statement (and is in fact not updated by the transforms).',
+    'refinement theorems compare everything reachable from (arguments, results) AFTER the call; the excluded region is stated in Lean: detached_object_update_lost (finding F31: a detached caller object keeps its pre-call state under jit, RefinesEager.frame) and metadata_edit_dropped_by_raw_leaves (finding F32: raw leaves keep the caller\'s old Variable metadata, VariableState leaves replace it); the DSL has no metadata-edit statement.',
   ],
 }
 
@@ -444,9 +450,10 @@ class Transformed:
       fn = spec['fn']
       return nnx.remat(lambda *a: interp(fn, a, c))(*args)
     if k == 'cached_partial':
+      nc = spec.get('ncached', len(args))
       if self.cp is None:
-        self.cp = nnx.cached_partial(self.jf, *args)
-      return self.cp()
+        self.cp = nnx.cached_partial(self.jf, *args[:nc])
+      return self.cp(*args[nc:])
     if k == 'switch':
       fns = [(lambda f: (lambda *a: interp(f, a, c)))(f) for f in spec['fns']]
       return nnx.switch(jnp.asarray(i, dtype=jnp.int32), fns, *args)
@@ -524,7 +531,7 @@ ATTRS = ['a', 'b', 'c', 'w', 'k', 'z', 'bias']
 STATICS = ['i:0', 'i:3', 's:relu', 'b:True']
 METAS = [[], [], [], [['tag', 's:x']], [['n', 'i:3']]]
 VT_NAMES = ['Param', 'BatchStat', 'Cache', 'MyParam', 'Variable']
-CLS_NAMES = ['A', 'B', 'C', 'O']
+CLS_NAMES = ['A', 'B', 'C', 'O', 'A', 'B', 'L', 'F', 'Rngs']
 
 
 def gen_graph(rng):
@@ -549,6 +556,8 @@ def gen_graph(rng):
     return None
 
   for i in range(n_nodes):
+    if heap[i]['cls'] in FALSY_CLASSES and rng.random() < 0.5:
+      continue  # an empty (falsy) container
     for nm in rng.sample(ATTRS, rng.randrange(1, 4)):
       if rng.random() < 0.08:
         items = [leafval() for _ in range(rng.randrange(1, 3))]
@@ -876,9 +885,67 @@ def gen_twin_case(rng):
   return case
 
 
+def gen_falsy_case(rng):
+  """a caller graph node that is FALSY when the outputs are merged back (empty `__len__` container, `__bool__` False, the
+  library's empty `nnx.Rngs()`), alone, nested or both, as the root argument; the body adds its first attribute / stream,
+  re-binds it or only updates values, and returns it"""
+  cls = rng.choice(FALSY_CLASSES)
+  pvt = VT_MRO[rng.choice(VT_NAMES)]
+  heap = [{'cls': cls, 'attrs': []}, {'cls': rng.choice(['A', 'B']), 'attrs': [['k', {'r': 0}], ['w', {'r': 2}]]},
+          {'vt': pvt, 'val': rng.randrange(0, 10), 'md': []}]
+  if rng.random() < 0.3:
+    heap[0]['attrs'].append(['w', {'r': 2}])  # non-empty: falsy only for class F
+  args = rng.choice([[{'r': 0}], [{'r': 1}], [{'r': 1}, {'r': 0}], [{'r': 0}, {'r': 1}], [{'r': 0}, {'r': 0}]])
+  kind = rng.choice(['jit', 'jit', 'remat', 'cond', 'switch', 'fori'])
+
+  def body(variant):
+    g = ProgGen(rng, heap, ([{'a': 0}] if kind == 'fori' else []) + args)
+    off = 1 if kind == 'fori' else 0
+    if args[0]['r'] == 0:
+      tgt = off
+    else:
+      g.emit({'op': 'getAttr', 'r': off, 'k': 'k'})
+      tgt = len(g.env) - 1
+    if variant == 'add':
+      g.emit({'op': 'newVar', 'vt': pvt, 'e': {'c': 5}, 'md': []})
+      g.emit({'op': 'setAttr', 'r': tgt, 'k': 'a', 'src': len(g.env) - 1})
+    elif variant == 'alias':
+      vr = [i for i in g.var_regs()] or None
+      if vr is None:
+        nr = g.node_regs()
+        g.emit({'op': 'getAttr', 'r': [r for r in nr if g.env[r]['r'] == 1][0], 'k': 'w'}) if any(g.env[r]['r'] == 1 for r in nr) else g.emit({'op': 'newVar', 'vt': pvt, 'e': {'c': 1}, 'md': []})
+        vr = [len(g.env) - 1]
+      g.emit({'op': 'setAttr', 'r': tgt, 'k': 'b', 'src': vr[0]})
+    else:
+      g.value_op()
+    g.emit({'op': 'data', 'e': {'c': 1}})
+    return g, tgt
+
+  if kind in ('jit', 'remat'):
+    g, tgt = body(rng.choice(['add', 'add', 'alias', 'value']))
+    spec = {'kind': kind, 'fn': g.fn([tgt, len(g.env) - 1])}
+    steps = [{'call': args}, {'call': args}]
+  elif kind in ('cond', 'switch'):
+    v = rng.choice(['add', 'alias', 'value'])
+    g1, t1 = body(v)
+    g2, t2 = body(v)
+    f1, f2 = g1.fn([len(g1.env) - 1]), g2.fn([len(g2.env) - 1])
+    spec = {'kind': 'cond', 't': f1, 'f': f2} if kind == 'cond' else {'kind': 'switch', 'fns': [f1, f2]}
+    steps = [{'call': args, 'i': rng.choice([0, 1])}]
+  else:
+    g, tgt = body('value')
+    spec = {'kind': 'fori', 'fn': g.fn(list(range(1, 1 + len(args))))}
+    steps = [{'call': args, 'i': 0, 'n': rng.choice([1, 2])}]
+  sets = [set(reach_from(heap, a['r'])) for a in args]
+  return {'kind': 'history', 'G': {'heap': heap}, 'spec': spec, 'steps': steps, 'falsy': True,
+          'aliased': any(sets[i] & sets[j] for i in range(len(sets)) for j in range(i + 1, len(sets)))}
+
+
 def gen_case(rng, kind=None):
   if kind is None and rng.random() < 0.1:
     return gen_twin_case(rng)
+  if kind is None and rng.random() < 0.09:
+    return gen_falsy_case(rng)
   G = gen_graph(rng)
   heap = G['heap']
   kind = kind or rng.choices(['jit', 'remat', 'cond', 'switch', 'fori', 'while', 'cached_partial'], [38, 12, 10, 8, 12, 8, 12])[0]
@@ -897,8 +964,11 @@ def gen_case(rng, kind=None):
     if not CP_SAME_NODE_TWICE:
       seen = set()
       args = [a for a in args if not (a['r'] in seen or seen.add(a['r']))]
+    nc = len(args)
+    if rng.random() < 0.45:  # cached_partial(f, *nodes)(x[, y]): arrays passed at every call
+      args = args + [{'a': rng.randrange(0, 10)} for _ in range(rng.choice([1, 1, 2]))]
     fn, g = gen_fn(rng, heap, args, rng.randrange(1, 7), structural=rng.random() < 0.12, allow_refs=False, p_bad=0.02)
-    spec = {'kind': kind, 'fn': fn}
+    spec = {'kind': kind, 'fn': fn, 'ncached': nc}
   elif kind in ('cond', 'switch'):
     args, aliased = gen_args(rng, G)
     nb = 2 if kind == 'cond' else rng.choice([2, 3])
@@ -1093,7 +1163,7 @@ def check_cases(ctx, drv, cases, stream):
     ctx.count('transform', kind)
     ctx.count('calls_per_history', n_calls)
     ctx.count('aliased_args', bool(case.get('aliased')))
-    ctx.count('stream', stream + ('-twin' if case.get('twin') else ''))
+    ctx.count('stream', stream + ('-twin' if case.get('twin') else '') + ('-falsy' if case.get('falsy') else ''))
     for o in set(ops):
       ctx.count('ops_used', o)
     ctx.count('body_ops', min(len(ops), 12))
